@@ -105,3 +105,6 @@ def run_proofs(ctx):
     from vf.proofs import materialize
 
     materialize.run_proofs(ctx)
+    from vf.proofs import c06_rows
+
+    c06_rows.run_proofs(ctx)          # rows of list-valued factors are removed by position
